@@ -26,6 +26,14 @@ TOL = 1e-9
 
 # ------------------------------------------------------------------ generator
 def gen_session(r, tier):
+    if r.random() < (0.05 if tier == "quick" else 0.10):
+        # the README pipeline on a sub-tissue of a shipped skeleton: parse, resample, one static frame
+        from . import shipped
+        inp = shipped.random_image_input(r, "quick")
+        if not inp.get("window"):
+            inp["window"] = [round(r.random(), 3), round(r.random(), 3), 240]
+        return {"kind": "image", "inp": inp, "ne": r.randint(3, 8), "filter": r.random() < 0.5,
+                "frames": 1, "times": [0.0], "cm": False, "gt": False}
     T = R.choice_w(r, [(1, 2), (2, 3), (3, 3), (4, 2)])
     spec = TS.random_spec(r, max_side=4 if tier == "quick" else 5, kmax=12, for_solver=True, frames=T)
     times = [0.0]
@@ -143,6 +151,15 @@ def _place(st, s, K, r_t):
 # ------------------------------------------------------------------ building sessions
 def build_forsys(fs, sess, tag):
     frames = {}
+    if sess.get("kind") == "image":
+        from . import shipped
+        inp = sess["inp"]
+        v, e, c = P.build_skeleton(fs, shipped.image_bytes(inp), inp.get("mirror_y", False))
+        v, e, c, _ = fs.virtual_edges.generate_mesh(v, e, c, ne=sess["ne"])
+        frames[0] = fs.frames.Frame(0, v, e, c, time=0.0)
+        if sess.get("filter"):
+            frames[0].filter_edges(method="SG")
+        return fs.ForSys(frames, cm=False, initial_guess={})
     for t in range(sess["frames"]):
         T = TS.build_tissue(sess["spec"], t)
         if sess.get("path") == "se":
@@ -721,6 +738,8 @@ def simplifications(trace):
                 t["steps"][i][k] = v
                 yield t
     for k, sd in enumerate(trace["sessions"]):
+        if sd.get("kind") == "image":
+            continue
         if sd["frames"] > 1:
             mx = max([s["when"] % sd["frames"] for s in trace["steps"] if "when" in s and s.get("sess", 0) % len(trace["sessions"]) == k] + [0])
             if mx + 1 < sd["frames"] and not any(s.get("op") == "get_system_velocity_per_frame" for s in trace["steps"]):
